@@ -43,6 +43,9 @@ def one(ctx, kind, pts, opts, family):
         ctx.fail('predicate', 'completes', site, case, repr(e)[:200])
         real = 'raised'
     nontriv = None
+    # the proved round bounds on the REAL loop counts (dfdt_rounds_le: at most n rounds; the L-method cut-off strictly decreases)
+    if cnt is not None and kind in ('dfdt', 'lmethod') and cnt > n + 2:
+        ctx.fail('predicate', 'refinement-rounds-within-the-proved-bound(n+2)', site, case, dict(while_iterations=cnt, n=n))
     try:
         model, orc = detfam.model_knee(ctx, kind, pts, opts)
     except Exception as e:
